@@ -1,7 +1,8 @@
 (* C16 -- skipping validation is scoped to the route (inbound half; the per-call half is in the
    outbound model, see C16_call_scope below once Endpoint is imported). *)
 From Coq Require Import List String Bool ZArith.
-From OV.Model Require Import Json Names Schema Validate Frame Dispatch DispatchProofs Shipped ShippedProofs.
+From OV.Model Require Import Json Names Schema Validate Frame Classes Dispatch DispatchProofs Endpoint EndpointProofs Shipped ShippedProofs.
+From OV.Gen Require Import Errors.
 Import ListNotations.
 
 (* two configurations of the same version that agree on the route of the CALL's action process
@@ -26,3 +27,30 @@ Theorem C16_unchanged :
     :: after_events r id (c2s_keys payload).
 Proof. exact (skipped_route_unchanged shipped actions_of). Qed.
 Print Assumptions C16_unchanged.
+
+(* the per-call flag: whether a request is validated depends on the flag given to THAT call only --
+   not on the routes of the endpoint (the configuration c), not on any other caller in the state *)
+Theorem C16_call_scope_request :
+  forall c c' st st' k uid action snake suppress send_ok codes,
+    c_ver c = c_ver c' ->
+    validate shipped (c_ver c) MCall action (remove_nones (s2c_keys snake)) = VReject codes false ->
+    log (start_with shipped errors results_of 120 c st k uid action snake false suppress send_ok) = log st /\
+    log (start_with shipped errors results_of 120 c' st' k uid action snake false suppress send_ok) = log st'.
+Proof.
+  intros c c' st st' k uid action snake suppress send_ok codes Hv Hr. split.
+  - apply (call_guard_reject shipped errors results_of 120 c st k uid action snake suppress send_ok codes Hr).
+  - assert (Hr' : validate shipped (ver c') MCall action (remove_nones (s2c_keys snake)) = VReject codes false)
+      by (unfold ver; rewrite <- Hv; exact Hr).
+    apply (call_guard_reject shipped errors results_of 120 c' st' k uid action snake suppress send_ok codes Hr').
+Qed.
+Print Assumptions C16_call_scope_request.
+
+(* and the reply of a call is validated iff that call did not skip: the outcome is a function of the
+   caller's own record and the reply *)
+Theorem C16_call_scope_reply :
+  forall c cl id payload a4 codes,
+    cl_skip cl = false ->
+    validate shipped (c_ver c) MCallResult (cl_action cl) payload = VReject codes false ->
+    complete shipped errors results_of c cl (CallResult id payload a4) = OInvalid codes.
+Proof. intros c cl id payload a4 codes Hs Hv. unfold complete, ver. rewrite Hs, Hv. reflexivity. Qed.
+Print Assumptions C16_call_scope_reply.
